@@ -20,7 +20,7 @@ def make_world():
         a0 = 1
 
     class K1(K0):
-        pass
+        a1 = None          # present (hasattr), with a value that is None: K3 sees this one first
 
     class K2(K0):
         a1 = 2
@@ -32,10 +32,10 @@ def make_world():
         a0 = 3
 
     class K5(K4, metaclass=M1):
-        pass
+        a1 = 0             # present, falsy
 
     class K6:
-        pass
+        a0 = None          # present, None
 
     classes = [K0, K1, K2, K3, K4, K5, K6]
     metas = [M0, M1]
